@@ -257,7 +257,13 @@ where
                         "let ",
                         chain![
                             arena,
-                            self.pretty_pattern(&bind.name),
+                            match bind.name.value {
+                                // Without the parentheses `let Some x = ..` defines a function `Some`
+                                Pattern::Constructor(_, ref args) if !args.is_empty() => {
+                                    self.pretty_pattern_(&bind.name, Prec::Constructor)
+                                }
+                                _ => self.pretty_pattern(&bind.name),
+                            },
                             " ",
                             arena.concat(bind.args.iter().map(|arg| {
                                 chain![
